@@ -52,6 +52,10 @@ def _q16(e0, e1, e2, e3, m0, m1, m2, m3, ms, now0, inc0, inc1, pi, hashing, hrec
             if ex[i]:
                 w.file(o, mt[i], "content of " + o)
     w.file("unrelated.txt", 1, "unrelated")
+    if sh.get("cwd"):
+        # gwf is invoked from a sub-directory of the project (workflow.py is found by walking up)
+        w.vfs.cwd = ROOT + "/" + sh["cwd"]
+        w.vfs.dirs.add(w.vfs.cwd)
     link_dest = None
     if sh.get("lnk"):
         # the first target's output is a symbolic link into a store elsewhere (dangling if that output "does not exist")
@@ -132,9 +136,9 @@ def q16(e0: bool, e1: bool, e2: bool, e3: bool, m0: int, m1: int, m2: int, m3: i
 
 QUERIES = [
     {"name": "Q16", "fn": q16,
-     "shards": {"quick": [{"shape": "chain3", "pi": k} for k in range(4)] + [{"shape": "fork3", "pi": 0}, {"shape": "fork3", "pi": 1}, {"shape": "join3", "pi": 0}, {"shape": "chain2+sink", "pi": 0}, {"shape": "chain2+sink", "pi": 1}, {"shape": "tri-rev", "pi": 0}, {"shape": "tri-rev", "pi": 1}, {"shape": "chain3", "pi": 0, "lnk": True}],
-                "thorough": [{"shape": s, "pi": k} for s in ("chain3", "fork3", "join3", "diamond4", "two-ends", "chain2+sink", "tri-rev") for k in range(len(PATS[s]))] + [{"shape": s, "pi": 0, "lnk": True} for s in ("chain3", "fork3")]},
+     "shards": {"quick": [{"shape": "chain3", "pi": k} for k in range(4)] + [{"shape": "fork3", "pi": 0}, {"shape": "fork3", "pi": 1}, {"shape": "join3", "pi": 0}, {"shape": "chain2+sink", "pi": 0}, {"shape": "chain2+sink", "pi": 1}, {"shape": "tri-rev", "pi": 0}, {"shape": "tri-rev", "pi": 1}, {"shape": "chain3", "pi": 0, "lnk": True}, {"shape": "chain3", "pi": 1, "cwd": "analysis"}],
+                "thorough": [{"shape": s, "pi": k} for s in ("chain3", "fork3", "join3", "diamond4", "two-ends", "chain2+sink", "tri-rev") for k in range(len(PATS[s]))] + [{"shape": s, "pi": 0, "lnk": True} for s in ("chain3", "fork3")] + [{"shape": "chain3", "pi": k, "cwd": "analysis"} for k in range(4)]},
      "timeout": {"quick": 1500, "thorough": 3600},
-     "bound": "3 targets (chain with 4 selections, fork, join, chain ending in an output-less target, triangle with a shortcut edge whose middle target sorts before the root, chain whose first output is a symbolic link into a store elsewhere (dangling if absent); thorough adds diamond and two endpoints); existence and modification time (symbolic int <= start of the command) of every output and source, "
+     "bound": "3 targets (chain with 4 selections, fork, join, chain ending in an output-less target, triangle with a shortcut edge whose middle target sorts before the root, chain whose first output is a symbolic link into a store elsewhere (dangling if absent), chain touched from a sub-directory of the project; thorough adds diamond and two endpoints); existence and modification time (symbolic int <= start of the command) of every output and source, "
               "clock increments before successive touches symbolic >= 0 (two alternating values), spec hashing off / on with 3 record situations"},
 ]
